@@ -41,11 +41,11 @@ def frameOf (j : Json) : Except String (Frame Nat Nat Nat String) := do
   else if k == "broken" then pure (.broken (← strAt a 1))
   else throw s!"bad frame {k}"
 
-def jsonLineOf (j : Json) : Except String (JsonLine Nat String) := do
+def jsonLineOf (j : Json) : Except String (JsonLine Nat Nat String) := do
   let a ← j.getArr?
   let k ← strAt a 0
-  if k == "rec" then pure (.record (← natAt a 1))
-  else if k == "desc" then pure .descriptor
+  if k == "rec" then pure (.record (← natAt a 2) (← natAt a 1))
+  else if k == "desc" then pure (.descriptor (← natAt a 1))
   else if k == "plain" then pure (.plain (.ok (← natAt a 1)))
   else if k == "plainerr" then pure (.plain (.error (← strAt a 1)))
   else if k == "bad" then pure (.bad (← strAt a 1))
